@@ -145,7 +145,10 @@ CCRead(tag, d) ==
 \* --- Content-Security-Policy: "key value; key value"
 SerCSP(d) == Join([i \in 1..Len(d) |-> d[i].k \o <<32>> \o d[i].v[1]], <<59, 32>>)
 CSPKeyOK(k) == k # <<>> /\ Printable(k) /\ ~Has(k, 32) /\ ~Has(k, 59)
-CSPValOK(o) == o # None /\ o[1] # <<>> /\ Printable(o[1]) /\ ~Has(o[1], 59) /\ NoEdgeSpace(o[1])
+\* the empty string is a value (header text "key " -- it is not the same as None / absent); a value-less
+\* directive does not survive re-parsing (parse_csp_header skips it), so only the re-read clause excludes it
+CSPValOK(o) == o # None /\ Printable(o[1]) /\ ~Has(o[1], 59) /\ NoEdgeSpace(o[1])
+CSPRoundTrips(d) == \A i \in 1..Len(d) : d[i].v[1] # <<>>
 CSPOK(d) == DKeysDistinct(d) /\ \A i \in 1..Len(d) : CSPKeyOK(d[i].k) /\ CSPValOK(d[i].v)
 CSPKnown(tag) == tag \in DOMAIN CSPDir
 CSPSet(tag, y, d) == IF y = None THEN DDel(d, CSPDir[tag]) ELSE DPut(d, CSPDir[tag], y)
